@@ -222,6 +222,9 @@ def run(ctx, rep):
                         not any(True for _ in [0] if D.nonnone_fact(ob.term, __import__("sa.rules.partial", fromlist=["flatten_facts"]).flatten_facts(ob.facts))):
                     idioms[how] = idioms.get(how, 0) + 1
                     continue
+                if ob.kind == "ATTR" and how is not None:
+                    idioms[how] = idioms.get(how, 0) + 1  # counted, not listed one by one
+                    continue
                 rule.inst(f"{q}: {ob.kind} {show(ob.term)[:70]} -- {how or 'UNDISCHARGED'}")
                 if how is None:
                     fail(rule, ctx, g, ob.node, f"{ob.kind} obligation not discharged: `{show(ob.term)[:160]}` {('(' + ob.detail + ') ') if ob.detail else ''}"
@@ -230,4 +233,8 @@ def run(ctx, rep):
                                                 f"it can raise an internal error for some text / chart")
                 else:
                     idioms[how] = idioms.get(how, 0) + 1
+            from .partial import check_signatures
+            nsig = check_signatures(ctx, rule, g, s)
+            idioms["D18 call of a package function / constructor binds (arity, keywords, required parameters)"] = \
+                idioms.get("D18 call of a package function / constructor binds (arity, keywords, required parameters)", 0) + nsig
     rep.extra["discharge_idioms_used"] = idioms
